@@ -24,6 +24,7 @@ type VCase struct {
 	Comp  []string    `json:"comp,omitempty"` // scalar component families (VIid: one, VId: one per component)
 	Ps    []Params    `json:"ps,omitempty"`
 	N     int         `json:"n"` // dimension given to NewScalarIid
+	Dims  []int       `json:"dims,omitempty"` // VVId: dimension of each ScalarIid block of the VectorId
 	X     []float64   `json:"x"`
 	// logged from the library (exported fields SigmaInv / SigmaDet)
 	SInv [][]float64 `json:"sinv,omitempty"`
@@ -94,6 +95,20 @@ func vecNew(fam string, t ad.ScalarType, c *VCase) (st.VectorPdf, error) {
 			ds = append(ds, s.(st.ScalarPdf))
 		}
 		return vd.NewScalarId(ds...)
+	case "VVId": // round 7: vectorDistribution.VectorId over ScalarIid blocks of different dimensions
+		var ds []st.VectorPdf
+		for i, name := range c.Comp {
+			s, err := famByName(name).New(t, c.Ps[i])
+			if err != nil || s == nil {
+				return nil, fmt.Errorf("ctor")
+			}
+			b, err := vd.NewScalarIid(s.(st.ScalarPdf), c.Dims[i])
+			if err != nil {
+				return nil, err
+			}
+			ds = append(ds, b)
+		}
+		return vd.NewVectorId(ds...)
 	}
 	return nil, fmt.Errorf("unknown vector family")
 }
@@ -232,6 +247,43 @@ func genVCase(k int, r *Rng) (string, VCase) {
 	return "VId", c
 }
 
+// round 7: block layouts of VectorId — mixed dimensions, larger before smaller and the other way round
+var vvidLayouts = [][]int{{2, 1, 1}, {1, 2}, {3, 1}, {1, 1, 2}, {2, 2}, {1, 3}, {2, 1}, {1, 2, 1}, {1}, {2}, {1, 1}, {3}}
+
+func genVVIdCase(k int, r *Rng) (string, VCase) {
+	lay := vvidLayouts[k%len(vvidLayouts)]
+	c := VCase{Dims: append([]int{}, lay...)}
+	for _, m := range lay {
+		f := famByName(iidFams[r.Intn(len(iidFams))])
+		p := f.Valid(r)
+		c.Comp = append(c.Comp, f.Name)
+		c.Ps = append(c.Ps, p)
+		for i := 0; i < m; i++ {
+			c.X = append(c.X, f.X(r, p))
+		}
+		c.N += m
+	}
+	switch r.Intn(12) {
+	case 0: // dimension guard: one entry too few / too many
+		c.X = c.X[:len(c.X)-1]
+	case 1:
+		c.X = append(c.X, 1)
+	}
+	return "VVId", c
+}
+
+// the component (index into Comp) that owns coordinate i of x under the running-offset layout; -1 beyond the end
+func vvidOwner(c VCase, i int) int {
+	j := 0
+	for k, m := range c.Dims {
+		if i < j+m {
+			return k
+		}
+		j += m
+	}
+	return -1
+}
+
 // ---- Coq proposition ------------------------------------------------------------
 
 func RMat(a [][]float64) string {
@@ -264,7 +316,7 @@ func vcaseCoq(fam string, c VCase, o Outcome) string {
 		// the arguments of the two Lgamma calls as the textbook has them: nu/2 + d/2 and nu/2
 		addLg(c.Nu/2 + float64(len(c.Mu))/2.0)
 		addLg(c.Nu / 2)
-	case "VIid", "VId":
+	case "VIid", "VId", "VVId":
 		for i, name := range c.Comp {
 			f := famByName(name)
 			if f.Lg != nil {
@@ -280,6 +332,17 @@ func vcaseCoq(fam string, c VCase, o Outcome) string {
 		if fam == "VIid" {
 			vf = "(VIid " + c.Comp[0] + ")"
 			if c.N == -1 || len(c.X) == c.N {
+				errKind = "OErrInt"
+			}
+		} else if fam == "VVId" {
+			cs := make([]string, len(c.Comp))
+			tot := 0
+			for i := range c.Comp {
+				cs[i] = fmt.Sprintf("(%s, %d%%nat)", c.Comp[i], c.Dims[i])
+				tot += c.Dims[i]
+			}
+			vf = "(VVId [" + strings.Join(cs, "; ") + "])"
+			if len(c.X) == tot {
 				errKind = "OErrInt"
 			}
 		} else {
@@ -303,6 +366,10 @@ func vcaseCoq(fam string, c VCase, o Outcome) string {
 			disc = famByName(c.Comp[0]).Discrete
 		} else if fam == "VId" && i < len(c.Comp) {
 			disc = famByName(c.Comp[i]).Discrete
+		} else if fam == "VVId" {
+			if k := vvidOwner(c, i); k >= 0 {
+				disc = famByName(c.Comp[k]).Discrete
+			}
 		}
 		xl[i] = RX(x, disc)
 	}
@@ -406,6 +473,23 @@ func refVecLogPdf(fam string, c VCase) float64 {
 			if fam == "VIid" {
 				k = 0
 			}
+			if famByName(c.Comp[k]).Discrete && !isInt(x) {
+				return math.NaN()
+			}
+			s += refLogPdf(c.Comp[k], c.Ps[k], x)
+		}
+		return s
+	case "VVId": // the sum over the blocks of the sums over the coordinates of each block
+		tot := 0
+		for _, m := range c.Dims {
+			tot += m
+		}
+		if len(c.X) != tot {
+			return math.NaN()
+		}
+		s := 0.0
+		for i, x := range c.X {
+			k := vvidOwner(c, i)
 			if famByName(c.Comp[k]).Discrete && !isInt(x) {
 				return math.NaN()
 			}
@@ -526,6 +610,11 @@ func vecHunt(o Opts, report func(Failure), tried *int) {
 	rng := NewRng(o.Seed + 7919)
 	for k := 0; k < 16*o.N/4+16; k++ {
 		fam, c := genVCase(k, rng.Split())
+		vecCheck(fam, c, report, tried)
+	}
+	rng = NewRng(o.Seed + 104729)
+	for k := 0; k < 8*o.N/4+24; k++ {
+		fam, c := genVVIdCase(k, rng.Split())
 		vecCheck(fam, c, report, tried)
 	}
 }
